@@ -59,6 +59,11 @@ def classify_callee(name):
     return None
 
 
+def anon_closures(text):
+    """closure / coroutine indices shift whenever a closure is added earlier in the same function: never part of a key"""
+    return re.sub(r'\{(closure|coroutine)#\d+\}', r'{\1}', text)
+
+
 class Site:
     __slots__ = ('fn', 'bb', 'kind', 'trees', 'line', 'mac', 'term', 'ordinal', 'verdict', 'why')
 
@@ -76,16 +81,16 @@ class Site:
 
     def _trees(self):
         # compiler temporaries that could not be inlined carry a number: never part of a key
-        return re.sub(r'\b_\d+\b', '_', ' '.join(show(t) for t in self.trees))
+        return anon_closures(re.sub(r'\b_\d+\b', '_', ' '.join(show(t) for t in self.trees)))
 
     @property
     def key(self):
-        return '%s|%s|%s|#%d' % (self.fn.qual, self.kind, self._trees(), self.ordinal)
+        return '%s|%s|%s|#%d' % (anon_closures(self.fn.qual), self.kind, self._trees(), self.ordinal)
 
     @property
     def tkey(self):
         """table key: without ordinal (a table line covers all equal trees in the function)"""
-        return '%s|%s|%s' % (self.fn.qual, self.kind, self._trees())
+        return '%s|%s|%s' % (anon_closures(self.fn.qual), self.kind, self._trees())
 
 
 def inventory(fn):
@@ -495,7 +500,7 @@ class Discharger:
                 self.third_party.add(ch[0])
                 return ('M', 'token text comes from the third-party macro %s (trusted as part of that dependency)' % ch[0])
         e = self.table.get(s.tkey)
-        wk = '%s|%s|*' % (fn.qual, s.kind)
+        wk = '%s|%s|*' % (anon_closures(fn.qual), s.kind)
         if e is None and wk in self.table:
             e = self.table[wk]
             self.used_table.add(wk)
